@@ -346,8 +346,15 @@ func c05ManyIdentities(ev *vlib.Evidence, driver string, idx int) {
 		victims[id] = n
 	}
 	others := 1100 + r.Intn(1500)
+	// the other identities' clocks are not the victims': some date their nonces minutes back,
+	// some far ahead (accepted: there is no upper bound) - none of that is the victims' business
+	skew := []time.Duration{0, 0, -10 * time.Minute, 20 * time.Minute, time.Hour, 24 * time.Hour, 1000 * time.Hour}
 	for i := 0; i < others; i++ {
-		s.CheckAndSaveNonce(fmt.Sprintf("other-%d", i), time.Now().UnixNano())
+		sk := time.Duration(0)
+		if idx%2 == 1 {
+			sk = skew[r.Intn(len(skew))]
+		}
+		s.CheckAndSaveNonce(fmt.Sprintf("other-%d", i), time.Now().Add(sk).UnixNano())
 	}
 	ev.Case(fmt.Sprintf("many-identities %s others=%d idx=%d", driver, others, idx), true)
 	ev.Count("many-identities-scenarios", 1)
